@@ -55,9 +55,15 @@ def run(ctx):
         labels = ["lab%d" % i for i in range(nd)] if rng.random() < 0.4 else []
         hasrange = int(rng.random() < 0.25)
         rngticks = [-2, 30, -4, 40]
-        job = dict(kind="diagrams", dgms=[[[e.f(b), e.f(d) if f else float("inf")] for b, d, f in dg] for dg in dgms], plot_only=po, lifetime=lifetime, legend=legend,
+        f32 = rng.random() < 0.4
+        rep = (not po) and rng.random() < 0.25
+        if rep:
+            dgms = [dgms[0]] + dgms
+            nd += 1
+            labels = ["lab%d" % i for i in range(nd)] if labels else []
+        job = dict(kind="diagrams", dgms=[[[e.f(b), e.f(d) if f else float("inf")] for b, d, f in dg] for dg in (dgms[1:] if rep else dgms)], float32=f32, repeat_first=rep, plot_only=po, lifetime=lifetime, legend=legend,
                    title=title, labels=labels, xy_range=[e.f(v) for v in rngticks] if hasrange else None, diagonal=rng.random() < 0.8,
-                   ax_is_current=rng.random() < 0.5, aslist=rng.random() < 0.5)
+                   ax_is_current=rng.random() < 0.5, aslist=rep or rng.random() < 0.5)
         jobs.append(job)
         skel.append(dict(kind="diagrams", dgms=dgms, plotonly=po, lifetime=lifetime, hasrange=hasrange, range=rngticks, title=title, legend=legend,
                          labels=labels or ["$H_{%d}$" % i for i in range(nd)], q=Q, emb=e))
